@@ -47,3 +47,117 @@ ALL.append(("C19", "the two documented ways of storing an object converge", SEQ,
  ("converge_invalid", "incorrect validation data: same mismatch class, pid unbound, referenced objects untouched"),
  ("converge_invalid_counterexample", "why converge_invalid speaks of objects that exist"),
 ]))
+ALL.append(("C06", "validation verdict is exactly 'size and checksum match the content'", ["Base", "PyVal", "FS", "Ops", "Spec", "SeqLemmas", "SeqProps", "Algo", "Verdict"], [
+ ("verdict_iff", "the verdict is Valid exactly when size and (case-insensitive) checksum match, on both checksum paths"),
+ ("verdict_path_independent", "pre-computed and on-demand paths agree"),
+ ("verdict_pid_independent", "independent of whether a pid was given"),
+ ("verdict_case_insensitive", "independent of the case of the supplied checksum"),
+ ("true_digest_any_case_valid", "the true digest in any case is accepted"),
+ ("size_checked_first", "a size mismatch is reported whatever the checksum"),
+ ("invalid_effect", "an invalid verdict with a pid deletes the temp file"),
+ ("valid_no_delete", "a valid verdict deletes nothing"),
+ ("verify_today_refuted", "the un-repaired comparison rejects a correct upper-case checksum (D2, witness)"),
+ ("verify_today_differs_iff", "and that is exactly where it differs"),
+ ("invalid_store_pure", "store_object with a wrong size: nothing bound, nothing added, no temp file (the store is unchanged)"),
+ ("invalid_store_pure_ck", "store_object with a wrong checksum: likewise"),
+ ("invalid_store_fst", "both, as one statement"),
+ ("del_invalid_guard", "delete_if_invalid_object never touches a referenced object"),
+]))
+ALL.append(("C02", "reported checksums are true and depend only on the call that asked", ["Algo", "StreamModel"], [
+ ("squashed_names_distinct", "the 12 algorithm names stay distinct when case and separators are removed"),
+ ("clean_sound", "no spelling is ever mapped to a different algorithm (all ASCII strings)"),
+ ("clean_unique", "the algorithm a spelling denotes is unique"),
+ ("clean_recase", "any per-character case change is accepted alike"),
+ ("clean_idempotent", "canonical names are fixed points"),
+ ("clean_complete", "every documented spelling is accepted and maps to the right algorithm"),
+ ("clean_complete_anycase", "in any case variant"),
+ ("refine_copy_keys", "the per-call algorithm list is exactly defaults + requested"),
+ ("refine_copy_nodup", "without duplicates"),
+ ("refine_copy_history", "the instance's default list is the same after any history of calls"),
+ ("refine_aliasing_keys_refuted", "the un-repaired aliasing reports an extra key in a later call (D1, witness)"),
+ ("consume_many", "every hash object fed chunk by chunk ends as the one-shot hash of the whole content"),
+ ("consume_many_stream", "for the chunks the stream wrapper produces, any buffer size"),
+]))
+ALL.append(("C15", "on-disk layout follows the published HashStore layout for every configuration", ["Shard", "RefsCodec"], [
+ ("shard_eq_spec", "the sharding comprehension equals the README layout (depth tokens of width characters, then the remainder)"),
+ ("shard_compact_spec_all", "for every depth, width and string: the README layout with empty tokens dropped"),
+ ("shard_concat", "the tokens concatenate to the digest"),
+ ("shard_lengths", "token count and lengths"),
+ ("shard_nonempty_tokens", "no empty path component is ever produced"),
+ ("shard_outside_length", "outside the documented range fewer components result"),
+ ("shard_injective", "different digests never share a path"),
+ ("add_exact", "appending a pid to a cid list is exactly one more newline-terminated line"),
+ ("split_unparse", "a cid list is one pid per newline-terminated line"),
+]))
+ALL.append(("C18", "identifiers are opaque: arbitrary pid / format strings never alias or escape", ["RefsCodec", "Shard"], [
+ ("check_string_spec", "accepted identifiers are exactly the non-empty strings without whitespace (any character type, any isspace)"),
+ ("lines_codec", "parse(unparse l) = l"),
+ ("member_exact", "membership compares whole lines: a prefix, suffix or case variant is not found"),
+ ("member_strict_prefix_not_found", "prefix"),
+ ("member_strict_suffix_not_found", "suffix"),
+ ("remove_exact", "removal deletes exactly the lines equal to the pid, all others byte-identical and in order"),
+ ("remove_preserves_others", "membership of every other pid is unchanged by a removal"),
+ ("remove_absent_noop", "removing an absent pid changes nothing"),
+ ("remove_empty_iff", "the file is empty exactly when no other pid remains"),
+ ("unparse_injective", "the byte format determines the list"),
+ ("shard_tokens_from_input", "every character of every path component comes from the hex digest"),
+ ("shard_nonempty_tokens", "and no component is empty"),
+]))
+ALL.append(("C17", "rejected and read-only calls change nothing", ["Base", "PyVal", "FS", "Ops", "Spec", "SeqLemmas", "SeqProps", "Algo", "Args"], [
+ ("check_string_ok_iff", "identifier check"),
+ ("check_string_rejects", "None, empty, whitespace-containing -> ValueError"),
+ ("check_integer_ok_iff", "size check"),
+ ("check_integer_classes", "non-integer -> TypeError, non-positive -> ValueError"),
+ ("check_arg_data_ok_iff", "data type check"),
+ ("pairing_checksum_without_algo_strong", "checksum without algorithm"),
+ ("pairing_algo_without_checksum_strong", "algorithm without checksum"),
+ ("store_object_args_ok_iff", "store_object is accepted exactly when all four checks pass"),
+ ("store_object_first_failure", "and reports the first failing check"),
+ ("unsupported_algorithm_rejected", "unsupported algorithm names"),
+ ("unsupported_additional_rejected", ""),
+ ("unsupported_checksum_algorithm_rejected", ""),
+ ("rejected_pure", "a rejected call leaves the file map identical"),
+ ("readonly_pure", "so do retrieve_object, retrieve_metadata, get_hex_digest"),
+ ("unknown_pid_pure", "and retrieve / delete / get_hex_digest of an unknown pid"),
+ ("missing_source_pure", "and a store_object whose source path does not exist"),
+]))
+ALL.append(("C14", "store configuration is pinned at creation", ["PyVal", "Config"], [
+ ("open_iff", "an existing store opens ONLY with equal depth, width, algorithm, namespace (ints may be int-like strings)"),
+ ("accept_existing_returns_pinned", "and then nothing but missing data directories is created"),
+ ("yaml_never_rewritten", "the configuration file is never rewritten"),
+ ("effects_only_on_accept", "a refusal has no effect at all"),
+ ("reopen_mismatch_refused", "any mismatch -> ValueError"),
+ ("unsupported_algorithm_refused", "unsupported store algorithm -> ValueError before anything is created"),
+ ("no_yaml_with_data_refused", "data directories without configuration file -> RuntimeError"),
+ ("missing_key_refused", "missing key -> KeyError"),
+ ("none_value_refused", "None value -> ValueError"),
+ ("extra_keys_ignored", "extra keys are ignored"),
+ ("create_then_reopen", "a store reopens with the properties it was created with, for all depths, widths, encodings"),
+]))
+ALL.append(("C20", "the command-line client is a faithful front end to the API", ["PyVal", "Config", "Client"], [
+ ("client_types_fixed", "every argument reaches the API with the type its checks require"),
+ ("client_types_today_refuted", "the un-repaired client passes -obj_size as a str (D7, witness)"),
+ ("client_values_storeobject", "store_object receives exactly the option values (size converted)"),
+ ("client_values_getchecksum", ""), ("client_values_storemetadata", ""), ("client_values_retrieveobject", ""),
+ ("client_values_retrievemetadata", ""), ("client_values_deleteobject", ""), ("client_values_deletemetadata", ""),
+ ("client_format_default", "an omitted -formatid means the store's default namespace"),
+ ("client_requires_pid", "-pid is required"),
+ ("client_open_accepts", "a store is opened by the client with the properties it pins"),
+ ("api_create_then_client_open", "API-created store opens in the client"),
+ ("client_create_then_api_open", "client-created store opens through the API with the same properties"),
+]))
+ALL.append(("C01", "stored bytes come back unchanged, addressed by their own hash", ["Base", "PyVal", "FS", "Ops", "Spec", "SeqLemmas", "SeqProps", "StreamModel"], [
+ ("chunks_concat", "the stream wrapper's chunks reassemble the content, for every buffer size > 0 and every size (0, exact multiples, multi-buffer)"),
+ ("chunks_bounds", "chunks are non-empty and at most one buffer"),
+ ("chunks_count", "number of reads"),
+ ("chunks_bs0", "why buffer size 0 is excluded"),
+ ("iterate_ignores_offset", "iteration starts at offset 0 whatever the caller's position"),
+ ("stream_restores", "a caller's stream is left open at its original offset"),
+ ("stream_closes_own", "a file we opened is closed"),
+ ("consume_correct", "temp file = the bytes; incremental hash = one-shot hash"),
+ ("store_cid_size", "for all four kinds of data argument"),
+ ("stream_init_accepts_fixed", "all four kinds are accepted"),
+ ("stream_init_today_refuted", "the un-repaired wrapper rejects in-memory streams (D6, witness)"),
+ ("store_then_retrieve", "a successful store makes the pid retrievable with those bytes"),
+ ("retrieve_stable", "and it stays so over ANY history of other calls until delete_object(pid)"),
+]))
